@@ -1,0 +1,76 @@
+//go:build verif
+
+package zerolog
+
+// Contracts for the verifier in /verif (govc). This file is comment-only: it
+// is compiled only with -tags verif and declares nothing.
+
+//@ track Sampler.Sample, LevelWriter.WriteLevel, LevelWriter.Write, BurstSampler.inc, Time.UnixNano
+
+// ---------------------------------------------------------------------------
+// globals.go
+
+//@ func GlobalLevel() res
+//@   props C04 C13
+//@   arith bv
+//@   modifies nothing
+//@   requires gLevel != nil
+//@   ensures [C04] res == int8(deref(gLevel))
+
+//@ func samplingDisabled() res
+//@   props C04 C13
+//@   arith bv
+//@   modifies nothing
+//@   requires disableSampling != nil
+//@   ensures [C13] res == (deref(disableSampling) == 1)
+
+// ---------------------------------------------------------------------------
+// log.go
+
+//@ func (*Logger).should(l, lvl) res
+//@   props C04 C13
+//@   arith bv
+//@   requires l != nil && gLevel != nil && disableSampling != nil
+//@   ensures [C04] res == (l.w != nil && lvl >= l.level && lvl >= int8(deref(gLevel)) && (l.sampler == nil || deref(disableSampling) == 1 || callres(Sampler.Sample, old(ncalls(Sampler.Sample)), 0)))
+//@   ensures [C04,C13] ncalls(Sampler.Sample) == old(ncalls(Sampler.Sample)) + ite(l.w != nil && lvl >= l.level && lvl >= int8(deref(gLevel)) && l.sampler != nil && deref(disableSampling) != 1, 1, 0)
+//@   ensures [C13] ncalls(Sampler.Sample) > old(ncalls(Sampler.Sample)) ==> callarg(Sampler.Sample, old(ncalls(Sampler.Sample)), 0) == l.sampler && callarg(Sampler.Sample, old(ncalls(Sampler.Sample)), 1) == lvl
+
+// ---------------------------------------------------------------------------
+// sampler.go
+
+//@ func (*BasicSampler).Sample(s, lvl) res
+//@   props C13
+//@   arith bv
+//@   requires s != nil
+//@   ensures s.N == old(s.N)
+//@   ensures s.N == 0 ==> !res && s.counter == old(s.counter)
+//@   ensures s.N == 1 ==> res && s.counter == old(s.counter)
+//@   ensures s.N >= 2 ==> s.counter == old(s.counter) + 1 && res == (s.counter % s.N == 1)
+
+//@ func (*BurstSampler).inc(s) res
+//@   props C13
+//@   arith bv
+//@   requires s != nil && TimestampFunc != nil
+//@   ensures ncalls(Time.UnixNano) == old(ncalls(Time.UnixNano)) + 1
+//@   ensures callres(Time.UnixNano, old(ncalls(Time.UnixNano)), 0) >= old(s.resetAt) ==> res == 1 && s.counter == 1 && s.resetAt == callres(Time.UnixNano, old(ncalls(Time.UnixNano)), 0) + int64(s.Period)
+//@   ensures callres(Time.UnixNano, old(ncalls(Time.UnixNano)), 0) < old(s.resetAt) ==> res == old(s.counter) + 1 && s.counter == res && s.resetAt == old(s.resetAt)
+//@   ensures s.Burst == old(s.Burst) && s.Period == old(s.Period) && s.NextSampler == old(s.NextSampler)
+
+//@ func (*BurstSampler).Sample(s, lvl) res
+//@   props C13
+//@   arith bv
+//@   requires s != nil && TimestampFunc != nil
+//@   ensures ncalls(BurstSampler.inc) == old(ncalls(BurstSampler.inc)) + ite(old(s.Burst) > 0 && old(s.Period) > 0, 1, 0)
+//@   ensures old(s.Burst) > 0 && old(s.Period) > 0 && callres(BurstSampler.inc, old(ncalls(BurstSampler.inc)), 0) <= old(s.Burst) ==> res && ncalls(Sampler.Sample) == old(ncalls(Sampler.Sample))
+//@   ensures !(old(s.Burst) > 0 && old(s.Period) > 0 && callres(BurstSampler.inc, old(ncalls(BurstSampler.inc)), 0) <= old(s.Burst)) && old(s.NextSampler) == nil ==> !res && ncalls(Sampler.Sample) == old(ncalls(Sampler.Sample))
+//@   ensures !(old(s.Burst) > 0 && old(s.Period) > 0 && callres(BurstSampler.inc, old(ncalls(BurstSampler.inc)), 0) <= old(s.Burst)) && old(s.NextSampler) != nil ==> ncalls(Sampler.Sample) == old(ncalls(Sampler.Sample)) + 1 && callarg(Sampler.Sample, old(ncalls(Sampler.Sample)), 0) == old(s.NextSampler) && callarg(Sampler.Sample, old(ncalls(Sampler.Sample)), 1) == lvl && res == callres(Sampler.Sample, old(ncalls(Sampler.Sample)), 0)
+
+//@ func (LevelSampler).Sample(s, lvl) res
+//@   props C13
+//@   arith bv
+//@   ensures lvl == TraceLevel && s.TraceSampler != nil ==> ncalls(Sampler.Sample) == old(ncalls(Sampler.Sample)) + 1 && callarg(Sampler.Sample, old(ncalls(Sampler.Sample)), 0) == s.TraceSampler && callarg(Sampler.Sample, old(ncalls(Sampler.Sample)), 1) == lvl && res == callres(Sampler.Sample, old(ncalls(Sampler.Sample)), 0)
+//@   ensures lvl == DebugLevel && s.DebugSampler != nil ==> ncalls(Sampler.Sample) == old(ncalls(Sampler.Sample)) + 1 && callarg(Sampler.Sample, old(ncalls(Sampler.Sample)), 0) == s.DebugSampler && callarg(Sampler.Sample, old(ncalls(Sampler.Sample)), 1) == lvl && res == callres(Sampler.Sample, old(ncalls(Sampler.Sample)), 0)
+//@   ensures lvl == InfoLevel && s.InfoSampler != nil ==> ncalls(Sampler.Sample) == old(ncalls(Sampler.Sample)) + 1 && callarg(Sampler.Sample, old(ncalls(Sampler.Sample)), 0) == s.InfoSampler && callarg(Sampler.Sample, old(ncalls(Sampler.Sample)), 1) == lvl && res == callres(Sampler.Sample, old(ncalls(Sampler.Sample)), 0)
+//@   ensures lvl == WarnLevel && s.WarnSampler != nil ==> ncalls(Sampler.Sample) == old(ncalls(Sampler.Sample)) + 1 && callarg(Sampler.Sample, old(ncalls(Sampler.Sample)), 0) == s.WarnSampler && callarg(Sampler.Sample, old(ncalls(Sampler.Sample)), 1) == lvl && res == callres(Sampler.Sample, old(ncalls(Sampler.Sample)), 0)
+//@   ensures lvl == ErrorLevel && s.ErrorSampler != nil ==> ncalls(Sampler.Sample) == old(ncalls(Sampler.Sample)) + 1 && callarg(Sampler.Sample, old(ncalls(Sampler.Sample)), 0) == s.ErrorSampler && callarg(Sampler.Sample, old(ncalls(Sampler.Sample)), 1) == lvl && res == callres(Sampler.Sample, old(ncalls(Sampler.Sample)), 0)
+//@   ensures !((lvl == TraceLevel && s.TraceSampler != nil) || (lvl == DebugLevel && s.DebugSampler != nil) || (lvl == InfoLevel && s.InfoSampler != nil) || (lvl == WarnLevel && s.WarnSampler != nil) || (lvl == ErrorLevel && s.ErrorSampler != nil)) ==> res && ncalls(Sampler.Sample) == old(ncalls(Sampler.Sample))
